@@ -1329,6 +1329,7 @@ class UnicodeDammit:
         0xFC: b"\xc3\xbc",  # ü
         0xFD: b"\xc3\xbd",  # ý
         0xFE: b"\xc3\xbe",  # þ
+        0xFF: b"\xc3\xbf",  # ÿ
     }
 
     #: :meta private:
